@@ -4,7 +4,7 @@ from __future__ import annotations
 
 import random
 
-from sim.sched import Chooser, HintChooser, PCTChooser
+from sim.sched import BoundedChooser, Chooser, HintChooser, PCTChooser
 
 
 def dfs(run, max_runs):
@@ -45,3 +45,23 @@ def hinted(run, hint_lists, seed):
 
 def replay(run, decisions):
     return run(Chooser(prefix=decisions, default="first"))
+
+
+def bounded(run, bound, max_runs):
+    """systematic search over all schedules with at most `bound` preemptions"""
+    prefix: list[int] = []
+    n = 0
+    state = {"exhaustive": False}
+    while n < max_runs:
+        ch = BoundedChooser(prefix=prefix, bound=bound)
+        res = run(ch)
+        n += 1
+        yield res, state
+        dec = ch.decisions
+        i = len(dec) - 1
+        while i >= 0 and dec[i][0] + 1 >= dec[i][1]:
+            i -= 1
+        if i < 0:
+            state["exhaustive"] = True
+            return
+        prefix = [d[0] for d in dec[:i]] + [dec[i][0] + 1]
